@@ -1,5 +1,5 @@
 #!/bin/bash
 # Run every registered quick check (with the baseline guard), 5 at a time; evidence files are rewritten.
-cd /verif; mkdir -p /tmp/runall
+cd "$(dirname "$0")/.."; L=${RUNALL_LOG:-/tmp/runall}; mkdir -p $L
 TIER=${1:-quick}
-for i in $(seq -w 1 20); do echo C$i; done | xargs -P 5 -I{} bash -c 'S=$(date +%s); VERIF_JOBS=8 ./check {} --tier '$TIER' > /tmp/runall/{}.log 2>&1; echo "{} rc=$? $(( $(date +%s)-S ))s $(grep -E "^# " /tmp/runall/{}.log | cut -c1-150)"; grep -E "^VIOLATION|^CHECKER" /tmp/runall/{}.log | head -3'
+for i in $(seq -w 1 20); do echo C$i; done | xargs -P 5 -I{} bash -c 'S=$(date +%s); VERIF_JOBS=8 ./check {} --tier '$TIER' > '$L'/{}.log 2>&1; echo "{} rc=$? $(( $(date +%s)-S ))s $(grep -E "^# " '$L'/{}.log | cut -c1-150)"; grep -E "^VIOLATION|^CHECKER" '$L'/{}.log | head -3'
